@@ -390,3 +390,80 @@ _run_c36b = run
 def run(ctx):  # noqa: F811
     _run_c36b(ctx)
     r36_3(ctx, ctx.model)
+
+
+# ---------------------------------------------------------------------------------------------------------------- R36.6 - R36.8
+def r36_7(ctx, m):
+    R = "R36.7"
+    ctx.rule(R, "classic normalized_residual(x) is a function of x alone: no method of that name in energy_operators.py stores into "
+                "`self` (a remembered operator built from the metric at the FIRST position is reused for every later sample of a "
+                "likelihood whose metric depends on the position) and the metric factor is evaluated at the argument", floor=1)
+    mod = m.module("nifty.cl.operators.energy_operators")
+    n = 0
+    for c in mod.classes.values():
+        fi = c.methods.get("normalized_residual")
+        if fi is None:
+            continue
+        n += 1
+        ctx.saw_func(fi)
+        xp = fi.params()[1]
+        stores = [st for st in walk_no_nested(fi.node) if isinstance(st, (ast.Assign, ast.AugAssign))
+                  for t in (st.targets if isinstance(st, ast.Assign) else [st.target]) if isinstance(t, ast.Attribute) and src(t.value) == "self"]
+        at_x = any(isinstance(z, ast.Call) and "sqrt_data_metric_at" in src(z.func) and z.args and src(z.args[0]) == xp for z in ast.walk(fi.node))
+        ctx.check(R, f"{fi.key}::no state is kept between samples", (not stores) and at_x,
+                  f"`{short(stores[0], 60)}` stores into self" if stores else ("" if at_x else "metric factor not evaluated at the argument"), fi, stores[0] if stores else None)
+    if not n:
+        ctx.und(R, f"{mod.name}::normalized_residual", "method not found", mod.relpath)
+
+
+def r36_8(ctx, m):
+    R = "R36.8"
+    ctx.rule(R, "classic _LikelihoodSum: the per-summand prefix operators and the likelihoods whose data-space metric they wrap are "
+                "paired position by position - every list handed to zip(...) in the constructor is filled by an append in the SAME "
+                "block of the loop (a list of all summands zipped with a list of the data-carrying ones shifts the pairing as soon as a "
+                "residual-free summand is not last)", floor=1)
+    C = m.cls("nifty.cl.operators.energy_operators", "_LikelihoodSum", required=False)
+    if C is None or "__init__" not in C.methods:
+        ctx.und(R, "nifty/cl/operators/energy_operators.py::_LikelihoodSum", "class missing", "nifty/cl/operators/energy_operators.py")
+        return
+    fi = C.methods["__init__"]
+    ctx.saw_func(fi)
+    # append sites: name -> list of id(enclosing statement list)
+    sites = {}
+
+    def visit(body):
+        for st in body:
+            for z in ast.walk(st) if isinstance(st, ast.Expr) else ():
+                if isinstance(z, ast.Call) and isinstance(z.func, ast.Attribute) and z.func.attr == "append" and isinstance(z.func.value, ast.Name):
+                    sites.setdefault(z.func.value.id, []).append(id(body))
+            for fld in ("body", "orelse", "finalbody"):
+                sub = getattr(st, fld, None)
+                if isinstance(sub, list) and sub and isinstance(sub[0], ast.stmt):
+                    visit(sub)
+    visit(fi.node.body)
+    zips = [z for z in ast.walk(fi.node) if isinstance(z, ast.Call) and isinstance(z.func, ast.Name) and z.func.id == "zip" and len(z.args) >= 2
+            and all(isinstance(a, ast.Name) for a in z.args)]
+    if not zips:
+        ctx.und(R, f"{fi.key}::zip of parallel lists", "no zip over named lists", fi)
+        return
+    for z in zips:
+        names = [a.id for a in z.args]
+        blocks = [tuple(sites.get(nm, ())) for nm in names]
+        ok = all(b and b == blocks[0] for b in blocks)
+        unfilled = [nm for nm, b in zip(names, blocks) if not b]
+        ctx.check(R, f"{fi.key}::`{src(z)}` pairs lists filled together", ok,
+                  (f"{unfilled} is not filled in the loop (all summands) while {[n_ for n_ in names if n_ not in unfilled]} is filled only for "
+                   "data-carrying summands") if unfilled else ("lists are appended in different blocks" if not ok else ""), fi, z)
+
+
+_run_c36c = run
+
+
+def run(ctx):  # noqa: F811
+    _run_c36c(ctx)
+    from .alias import alias
+    from . import c12
+    # residual diagnostics of a frozen likelihood see the frozen values (shared with C12's freeze table)
+    alias(ctx, c12._run_c12, {"R12.3": "R36.6"}, "shared with C12")
+    r36_7(ctx, ctx.model)
+    r36_8(ctx, ctx.model)
